@@ -1,4 +1,460 @@
-import TbotVerif.Props.C04
+import TbotVerif.Props.C06Spec
+import TbotVerif.Props.C06Clean
+import TbotVerif.Props.ChanCase
+/-! C06 — "Timeouts are overall deadlines: never exceeded, never cut short".
+
+    * `C06.op_spec`: every operation, started in any channel state, satisfies `Spec.c06`;
+    * `C06.case_spec`: so does every operation of every well-formed case;
+    * corollaries: without a timeout the model never produces a `TimeoutError`
+      (`no_timeout_*`); `read_until_timeout (some T)` never raises `TimeoutError` and a normal
+      return happens exactly at `t0 + T` (`rut_exact`); every timed method ends no later than
+      its deadline (`*_deadline`).
+
+    The proofs rest on the predicate `C06.Timed` (`Props/C06Time.lean`), established for every
+    loop of the model in `Props/C06Loops.lean` and translated to the Spec's clauses in
+    `Props/C06Spec.lean`.  The hypothesis `Good` of `op_spec` is not used: the deadline
+    arithmetic holds in every state (it is kept for uniformity with `C03.op_spec` and
+    `ChanCase.foldOps_run`). -/
+
 namespace C06
+open Chan Spec C03
+
+/-- kept only until `harness/c06.py` lists the real theorems in `THEOREMS` (it still audits this
+    name); remove together with that edit -/
 theorem placeholder : True := trivial
+
+/-- the fields of the observation record in terms of the operation's run from the cut state -/
+theorem obsOp_fields (op : Op) (r : RunSt) :
+    (obsOp op r).1.res = (runOp op { r with st := cut r.st }).1
+    ∧ (obsOp op r).1.t0 = r.st.now
+    ∧ (obsOp op r).1.t1 = (runOp op { r with st := cut r.st }).2.st.now
+    ∧ (obsOp op r).1.reads = (runOp op { r with st := cut r.st }).2.st.reads := by
+  unfold obsOp
+  exact ⟨rfl, rfl, rfl, rfl⟩
+
+/-- an operation whose run from the cut state is `Timed` satisfies the Spec -/
+theorem op_spec_of {q : Prop} (r : RunSt) (op : Op) (T : Option Nat) (s' : St) (recs : List ReadRec) (b : Bool)
+    (hT : timeoutOf op = some T)
+    (hsnd : (runOp op { r with st := cut r.st }).2.st = s')
+    (ht : Timed q r.st.now T (cut r.st) s' recs b)
+    (hq : r.st.slowDelay = none → q)
+    (hres : (runOp op { r with st := cut r.st }).1 = .err .timeout → b = true)
+    (hrut : ∀ t, op = .rut t → q ∧ (runOp op { r with st := cut r.st }).1 ≠ .err .timeout
+              ∧ (∀ x, (runOp op { r with st := cut r.st }).1 = .text x → b = true)) :
+    Spec.c06 (Cfg.ofRun r) op (obsOp op r).1 = true := by
+  obtain ⟨f1, f2, f3, f4⟩ := obsOp_fields op r
+  have hreads : s'.reads = recs := by rw [ht.reads]; rfl
+  refine c06_of_timed (q := q) (Cfg.ofRun r) op T (obsOp op r).1 (cut r.st) s' b hT ?_ f2 ?_ hq ?_ ?_
+  · rw [f4, hsnd, hreads]; exact ht
+  · rw [f3, hsnd]
+  · rw [f1]; exact hres
+  · rw [f1]; exact hrut
+
+theorem read_op (r : RunSt) (n : Option Nat) (t : Option Nat) :
+    Spec.c06 (Cfg.ofRun r) (.read n t) (obsOp (.read n t) r).1 = true := by
+  obtain ⟨recs, ht⟩ := read_timed True n t (cut r.st)
+  refine op_spec_of r _ t (read n t (cut r.st)).2 recs _ rfl ?_ ht (fun _ => trivial) ?_
+    (fun t' h => by cases h)
+  · simp only [runOp]
+    cases read n t (cut r.st) with
+    | mk a s1 => cases a <;> rfl
+  · simp only [runOp]
+    cases read n t (cut r.st) with
+    | mk a s1 =>
+      cases a with
+      | ok b => intro h; cases h
+      | error e => intro h; cases h; rfl
+
+theorem readIter_op (r : RunSt) (m : Option Nat) (t : Option Nat) (k : Option Nat) :
+    Spec.c06 (Cfg.ofRun r) (.readIter m t k) (obsOp (.readIter m t k) r).1 = true := by
+  obtain ⟨recs, ht, _⟩ := riTake_timed True (fuelFor (cut r.st)) k (riStart m t (cut r.st)) (cut r.st) []
+    (Nat.le_refl _)
+  refine op_spec_of r _ t (riTake (fuelFor (cut r.st)) k (riStart m t (cut r.st)) (cut r.st) []).2 recs _ rfl
+    rfl ht (fun _ => trivial) ?_ (fun t' h => by cases h)
+  intro h
+  simp only [runOp] at h
+  cases h
+
+theorem readline_op (r : RunSt) (e : Bytes) (t : Option Nat) :
+    Spec.c06 (Cfg.ofRun r) (.readline e t) (obsOp (.readline e t) r).1 = true := by
+  obtain ⟨recs, ht⟩ := readline_timed True e t (cut r.st)
+  refine op_spec_of r _ t (readline e t (cut r.st)).2 recs _ rfl ?_ ht (fun _ => trivial) ?_
+    (fun t' h => by cases h)
+  · simp only [runOp]
+    cases readline e t (cut r.st) with
+    | mk a s1 => cases a <;> rfl
+  · simp only [runOp]
+    cases readline e t (cut r.st) with
+    | mk a s1 =>
+      cases a with
+      | ok b => intro h; cases h
+      | error e => intro h; cases h; rfl
+
+theorem expect_op (r : RunSt) (ps : List Pat) (t : Option Nat) :
+    Spec.c06 (Cfg.ofRun r) (.expect ps t) (obsOp (.expect ps t) r).1 = true := by
+  obtain ⟨recs, ht⟩ := expect_timed True ps t (cut r.st)
+  refine op_spec_of r _ t (expect ps t (cut r.st)).2 recs _ rfl ?_ ht (fun _ => trivial) ?_
+    (fun t' h => by cases h)
+  · simp only [runOp]
+    cases expect ps t (cut r.st) with
+    | mk a s1 => cases a <;> rfl
+  · simp only [runOp]
+    cases expect ps t (cut r.st) with
+    | mk a s1 =>
+      cases a with
+      | ok b => intro h; cases h
+      | error e => intro h; cases h; rfl
+
+theorem rup_op (r : RunSt) (p : Option Pat) (t : Option Nat) :
+    Spec.c06 (Cfg.ofRun r) (.rup p t) (obsOp (.rup p t) r).1 = true := by
+  obtain ⟨recs, ht⟩ := readUntilPrompt_timed True p t (cut r.st)
+  refine op_spec_of r _ t (readUntilPrompt p t (cut r.st)).2 recs _ rfl ?_ ht (fun _ => trivial) ?_
+    (fun t' h => by cases h)
+  · simp only [runOp]
+    cases readUntilPrompt p t (cut r.st) with
+    | mk a s1 =>
+      cases a with
+      | ok b => rfl
+      | error e => rfl
+  · simp only [runOp]
+    cases readUntilPrompt p t (cut r.st) with
+    | mk a s1 =>
+      cases a with
+      | ok b => intro h; cases h
+      | error e => intro h; cases h; rfl
+
+theorem rut_op (r : RunSt) (t : Option Nat) :
+    Spec.c06 (Cfg.ofRun r) (.rut t) (obsOp (.rut t) r).1 = true := by
+  obtain ⟨recs, b, ht, hne, hok⟩ := readUntilTimeout_timed True t (cut r.st)
+  have hne' : (runOp (.rut t) { r with st := cut r.st }).1 ≠ .err .timeout := by
+    simp only [runOp]
+    cases hr : readUntilTimeout t (cut r.st) with
+    | mk a s1 =>
+      rw [hr] at hne
+      cases a with
+      | ok x => intro h; cases h
+      | error e => intro h; cases h; exact hne rfl
+  refine op_spec_of r _ t (readUntilTimeout t (cut r.st)).2 recs b rfl ?_ ht (fun _ => trivial)
+    (fun h => absurd h hne') (fun t' _ => ⟨trivial, hne', ?_⟩)
+  · simp only [runOp]
+    cases readUntilTimeout t (cut r.st) with
+    | mk a s1 => cases a <;> rfl
+  · simp only [runOp]
+    cases hr : readUntilTimeout t (cut r.st) with
+    | mk a s1 =>
+      rw [hr] at hok
+      cases a with
+      | ok x => intro _ _; exact hok x rfl
+      | error e => intro x h; cases h
+
+/-- `send` and `sendline` share this: the observation of `send payload true t ign` -/
+theorem send_run (r : RunSt) (op : Op) (payload : Bytes) (t : Option Nat) (ign : Bool)
+    (hT : timeoutOf op = some t)
+    (hrun : runOp op { r with st := cut r.st }
+      = ((ofUnit (send payload true t ign (cut r.st))).1, { r with st := (ofUnit (send payload true t ign (cut r.st))).2 }))
+    (hop : ∀ t', op ≠ .rut t') :
+    Spec.c06 (Cfg.ofRun r) op (obsOp op r).1 = true := by
+  obtain ⟨recs, ht⟩ := send_timed payload true t ign (cut r.st)
+  refine op_spec_of (q := (cut r.st).slowDelay = none) r op t (send payload true t ign (cut r.st)).2 recs _ hT
+    ?_ ht (fun h => h) ?_ (fun t' h => absurd h (hop t'))
+  · rw [hrun]
+    simp only [ofUnit]
+    cases send payload true t ign (cut r.st) with
+    | mk a s1 => cases a <;> rfl
+  · rw [hrun]
+    simp only [ofUnit]
+    cases send payload true t ign (cut r.st) with
+    | mk a s1 =>
+      cases a with
+      | ok b => intro h; cases h
+      | error e => intro h; cases h; rfl
+
+theorem send_op (r : RunSt) (b : Bytes) (rb : Bool) (t : Option Nat) (ign : Bool) :
+    Spec.c06 (Cfg.ofRun r) (.send b rb t ign) (obsOp (.send b rb t ign) r).1 = true := by
+  cases rb with
+  | false => rfl
+  | true => exact send_run r _ b t ign rfl rfl (fun t' h => by cases h)
+
+theorem sendline_op (r : RunSt) (b : Bytes) (rb : Bool) (t : Option Nat) :
+    Spec.c06 (Cfg.ofRun r) (.sendline b rb t) (obsOp (.sendline b rb t) r).1 = true := by
+  cases rb with
+  | false => rfl
+  | true => exact send_run r _ (b ++ [13]) t false rfl rfl (fun t' h => by cases h)
+
+/-- **C06 (per call).**  Every operation on every channel state satisfies the specification:
+    each transport request carries exactly the time left of the overall timeout, a
+    `TimeoutError` is raised exactly at the deadline and never without a timeout, every other
+    result comes no later than the deadline and at the moment of the last delivery, and
+    `read_until_timeout` ends exactly at the deadline. -/
+theorem op_spec_any (r : RunSt) (op : Op) : Spec.c06 (Cfg.ofRun r) op (obsOp op r).1 = true := by
+  cases op with
+  | read n t => exact read_op r n t
+  | readIter m t k => exact readIter_op r m t k
+  | readline e t => exact readline_op r e t
+  | expect ps t => exact expect_op r ps t
+  | rup p t => exact rup_op r p t
+  | rut t => exact rut_op r t
+  | send b rb t ign => exact send_op r b rb t ign
+  | sendline b rb t => exact sendline_op r b rb t
+  | _ => rfl
+
+/-- **C06 (per call)**, in the form `ChanCase.foldOps_run` expects (`Good` is not needed). -/
+theorem op_spec (r : RunSt) (op : Op) (_hg : Good r.st) :
+    Spec.c06 (Cfg.ofRun r) op (obsOp op r).1 = true := op_spec_any r op
+
+/-- **C06 (whole case).** -/
+theorem case_spec (c : Case) (h : ChanCase.WfCase c) : Spec.C06 c (Chan.run c) = true := by
+  unfold Spec.C06 Chan.run
+  simp only
+  exact ChanCase.foldOps_run Spec.c06 (fun r op hg => op_spec r op hg) c.ops (Chan.initSt c)
+    (ChanCase.good_init c h) h.ops
+
+/-! ### what the Spec says, in plain inequalities (these hold of every observation that
+    satisfies `Spec.c06`, the implementation's included) -/
+
+theorem cl2_some (res : OpRes) (T t0 t1 : Nat) (h : cl2 false res (some T) t0 t1 = true) :
+    t1 ≤ t0 + T ∧ (res = .err .timeout → t1 = t0 + T) := by
+  by_cases hr : res = .err .timeout
+  · subst hr
+    have : t1 = t0 + T := by simpa [cl2] using h
+    exact ⟨by omega, fun _ => this⟩
+  · have key : cl2 false res (some T) t0 t1 = decide (t1 ≤ t0 + T) := by
+      cases res with
+      | err e =>
+        cases e with
+        | timeout => exact absurd rfl hr
+        | _ => rfl
+      | _ => rfl
+    rw [key] at h
+    exact ⟨by simpa using h, fun h' => absurd h' hr⟩
+
+theorem cl2_none (slow : Bool) (res : OpRes) (t0 t1 : Nat) (h : cl2 slow res none t0 t1 = true) :
+    res ≠ .err .timeout := by
+  intro hr
+  subst hr
+  simp [cl2] at h
+
+/-- never exceeded: a timed operation ends no later than `t0 + T` -/
+theorem c06_deadline (cfg : Cfg) (op : Op) (o : OpObs) (T : Nat) (h : Spec.c06 cfg op o = true)
+    (hT : timeoutOf op = some (some T)) (hs : cfg.slowDelay = none) : o.t1 ≤ o.t0 + T := by
+  rw [c06_split cfg op o _ hT, hs] at h
+  simp only [Bool.and_eq_true] at h
+  exact (cl2_some _ _ _ _ h.1.1.2).1
+
+/-- never cut short: a `TimeoutError` is raised exactly at `t0 + T` -/
+theorem c06_timeout_exact (cfg : Cfg) (op : Op) (o : OpObs) (T : Nat) (h : Spec.c06 cfg op o = true)
+    (hT : timeoutOf op = some (some T)) (hs : cfg.slowDelay = none) (hr : o.res = .err .timeout) :
+    o.t1 = o.t0 + T := by
+  rw [c06_split cfg op o _ hT, hs] at h
+  simp only [Bool.and_eq_true] at h
+  exact (cl2_some _ _ _ _ h.1.1.2).2 hr
+
+/-- no timeout given: never a `TimeoutError` -/
+theorem c06_no_timeout (cfg : Cfg) (op : Op) (o : OpObs) (h : Spec.c06 cfg op o = true)
+    (hT : timeoutOf op = some none) : o.res ≠ .err .timeout := by
+  rw [c06_split cfg op o _ hT] at h
+  simp only [Bool.and_eq_true] at h
+  exact cl2_none _ _ _ _ h.1.1.2
+
+/-! ### corollaries about the model -/
+
+theorem Timed.no_flag {q : Prop} {t0 : Nat} {s s' : St} {recs : List ReadRec} {b : Bool}
+    (h : Timed q t0 none s s' recs b) : b = false := by
+  cases b with
+  | false => rfl
+  | true => obtain ⟨T', hT, _⟩ := h.tmo rfl; cases hT
+
+/-- **With `T = none` no operation of the model ever yields `TimeoutError`**: neither as the
+    exception of the call nor as the exception that ends a `read_iter`. -/
+theorem no_timeout_op (r : RunSt) (op : Op) (hT : timeoutOf op = some none) :
+    (obsOp op r).1.res ≠ .err .timeout ∧ ∀ cs, (obsOp op r).1.res ≠ .chunks cs (some .timeout) := by
+  refine ⟨c06_no_timeout _ op _ (op_spec_any r op) hT, ?_⟩
+  intro cs
+  rw [(obsOp_fields op r).1]
+  cases op with
+  | readIter m t k =>
+    simp only [timeoutOf, Option.some.injEq] at hT
+    subst hT
+    obtain ⟨recs, ht, _⟩ := riTake_timed True (fuelFor (cut r.st)) k (riStart m none (cut r.st)) (cut r.st) []
+      (Nat.le_refl _)
+    have e2 : (riStart m none (cut r.st)).timeout = none := rfl
+    rw [e2] at ht
+    have hb := ht.no_flag
+    simp only [runOp]
+    intro h
+    simp only [OpRes.chunks.injEq] at h
+    rw [h.2] at hb
+    simp [optTmo, excTmo] at hb
+  | read n t => simp only [runOp]; cases read n t (cut r.st) with | mk a s1 => cases a <;> simp
+  | readline e t => simp only [runOp]; cases readline e t (cut r.st) with | mk a s1 => cases a <;> simp
+  | expect ps t => simp only [runOp]; cases expect ps t (cut r.st) with | mk a s1 => cases a <;> simp
+  | rup p t => simp only [runOp]; cases readUntilPrompt p t (cut r.st) with | mk a s1 => cases a <;> simp
+  | rut t => simp only [runOp]; cases readUntilTimeout t (cut r.st) with | mk a s1 => cases a <;> simp
+  | send b rb t ign =>
+    simp only [runOp, ofUnit]; cases send b rb t ign (cut r.st) with | mk a s1 => cases a <;> simp
+  | sendline b rb t =>
+    simp only [runOp, ofUnit]; cases sendline b rb t (cut r.st) with | mk a s1 => cases a <;> simp
+  | _ => simp [timeoutOf] at hT
+
+/-- the methods themselves, called without a timeout -/
+theorem read_no_timeout (n : Option Nat) (s : St) : (read n none s).1 ≠ .error .timeout := by
+  obtain ⟨recs, ht⟩ := read_timed True n none s
+  intro h
+  have := ht.no_flag
+  rw [h] at this
+  simp [isTmo, excTmo] at this
+
+theorem readline_no_timeout (e : Bytes) (s : St) : (readline e none s).1 ≠ .error .timeout := by
+  obtain ⟨recs, ht⟩ := readline_timed True e none s
+  intro h
+  have := ht.no_flag
+  rw [h] at this
+  simp [isTmo, excTmo] at this
+
+theorem expect_no_timeout (ps : List Pat) (s : St) : (expect ps none s).1 ≠ .error .timeout := by
+  obtain ⟨recs, ht⟩ := expect_timed True ps none s
+  intro h
+  have := ht.no_flag
+  rw [h] at this
+  simp [isTmo, excTmo] at this
+
+theorem readUntilPrompt_no_timeout (p : Option Pat) (s : St) :
+    (readUntilPrompt p none s).1 ≠ .error .timeout := by
+  obtain ⟨recs, ht⟩ := readUntilPrompt_timed True p none s
+  intro h
+  have := ht.no_flag
+  rw [h] at this
+  simp [isTmo, excTmo] at this
+
+theorem send_no_timeout (b : Bytes) (rb ign : Bool) (s : St) : (send b rb none ign s).1 ≠ .error .timeout := by
+  obtain ⟨recs, ht⟩ := send_timed b rb none ign s
+  intro h
+  have := ht.no_flag
+  rw [h] at this
+  simp [isTmo, excTmo] at this
+
+/-- `read_until_timeout` never raises `TimeoutError`, whatever its argument -/
+theorem rut_never_timeout (t : Option Nat) (s : St) : (readUntilTimeout t s).1 ≠ .error .timeout :=
+  (readUntilTimeout_timed True t s).choose_spec.choose_spec.2.1
+
+/-- a normal return of `read_until_timeout (some T)` happens at exactly `t0 + T`, in every state -/
+theorem rut_ok_exact (T : Nat) (s : St) (x : Bytes) (h : (readUntilTimeout (some T) s).1 = .ok x) :
+    (readUntilTimeout (some T) s).2.now = s.now + T := by
+  obtain ⟨recs, b, ht, _, hok⟩ := readUntilTimeout_timed True (some T) s
+  obtain ⟨T', hT, hle⟩ := ht.tmo (hok x h)
+  cases hT
+  have := ht.dead trivial T rfl (Nat.le_add_right _ _)
+  omega
+
+/-- **`read_until_timeout (some T)` returns `.ok` at exactly `t0 + T` when no death string is
+    registered** (well-formed script, positive chunk size). -/
+theorem rut_exact (T : Nat) (s : St) (hwf : WF s) (hc : 0 < s.chunk) (hd : s.deaths = []) :
+    ∃ x, (readUntilTimeout (some T) s).1 = .ok x ∧ (readUntilTimeout (some T) s).2.now = s.now + T := by
+  have hok : ∃ x, (readUntilTimeout (some T) s).1 = .ok x := by
+    unfold readUntilTimeout
+    obtain ⟨recs, _, _, _, _, herr⟩ := riTake_spec (fuelFor s) none (riStart none (some T) s) s []
+      (by unfold fuelFor riStart; simp) hwf hc (by intro m h; simp [riStart] at h) (fun _ => rfl)
+    have hclean := riTake_clean (fuelFor s) none (riStart none (some T) s) s [] T hd rfl
+    generalize riTake (fuelFor s) none (riStart none (some T) s) s [] = out at herr hclean
+    obtain ⟨⟨cs, e⟩, s1⟩ := out
+    simp only at herr hclean
+    cases e with
+    | none => exact ⟨_, rfl⟩
+    | some e =>
+      obtain ⟨hk, _, _⟩ := herr cs e rfl
+      rcases hclean e rfl with h | h
+      · subst h; exact ⟨_, rfl⟩
+      · subst h; rcases hk with h | h | ⟨x, m, h⟩ <;> cases h
+  obtain ⟨x, hx⟩ := hok
+  exact ⟨x, hx, rut_ok_exact T s x hx⟩
+
+/-- every timed read method ends no later than its deadline, in every state -/
+theorem read_deadline (n : Option Nat) (T : Nat) (s : St) :
+    (read n (some T) s).2.now ≤ s.now + T
+    ∧ ((read n (some T) s).1 = .error .timeout → (read n (some T) s).2.now = s.now + T) := by
+  obtain ⟨recs, ht⟩ := read_timed True n (some T) s
+  have hd := ht.dead trivial T rfl (Nat.le_add_right _ _)
+  refine ⟨hd, fun h => ?_⟩
+  obtain ⟨T', hT, hle⟩ := ht.tmo (by rw [h]; rfl)
+  cases hT
+  omega
+
+theorem expect_deadline (ps : List Pat) (T : Nat) (s : St) :
+    (expect ps (some T) s).2.now ≤ s.now + T
+    ∧ ((expect ps (some T) s).1 = .error .timeout → (expect ps (some T) s).2.now = s.now + T) := by
+  obtain ⟨recs, ht⟩ := expect_timed True ps (some T) s
+  have hd := ht.dead trivial T rfl (Nat.le_add_right _ _)
+  refine ⟨hd, fun h => ?_⟩
+  obtain ⟨T', hT, hle⟩ := ht.tmo (by rw [h]; rfl)
+  cases hT
+  omega
+
+theorem readUntilPrompt_deadline (p : Option Pat) (T : Nat) (s : St) :
+    (readUntilPrompt p (some T) s).2.now ≤ s.now + T
+    ∧ ((readUntilPrompt p (some T) s).1 = .error .timeout → (readUntilPrompt p (some T) s).2.now = s.now + T) := by
+  obtain ⟨recs, ht⟩ := readUntilPrompt_timed True p (some T) s
+  have hd := ht.dead trivial T rfl (Nat.le_add_right _ _)
+  refine ⟨hd, fun h => ?_⟩
+  obtain ⟨T', hT, hle⟩ := ht.tmo (by rw [h]; rfl)
+  cases hT
+  omega
+
+theorem readline_deadline (e : Bytes) (T : Nat) (s : St) :
+    (readline e (some T) s).2.now ≤ s.now + T
+    ∧ ((readline e (some T) s).1 = .error .timeout → (readline e (some T) s).2.now = s.now + T) := by
+  obtain ⟨recs, ht⟩ := readline_timed True e (some T) s
+  have hd := ht.dead trivial T rfl (Nat.le_add_right _ _)
+  refine ⟨hd, fun h => ?_⟩
+  obtain ⟨T', hT, hle⟩ := ht.tmo (by rw [h]; rfl)
+  cases hT
+  omega
+
+/-- `send` with read-back: the timeout is an overall deadline for the whole call, not one per
+    slice (slow sending off) -/
+theorem send_deadline (b : Bytes) (rb ign : Bool) (T : Nat) (s : St) (hs : s.slowDelay = none) :
+    (send b rb (some T) ign s).2.now ≤ s.now + T
+    ∧ ((send b rb (some T) ign s).1 = .error .timeout → (send b rb (some T) ign s).2.now = s.now + T) := by
+  obtain ⟨recs, ht⟩ := send_timed b rb (some T) ign s
+  have hd := ht.dead hs T rfl (Nat.le_add_right _ _)
+  refine ⟨hd, fun h => ?_⟩
+  obtain ⟨T', hT, hle⟩ := ht.tmo (by rw [h]; rfl)
+  cases hT
+  omega
+
+/-! ### the hypotheses are satisfiable: a concrete case that exercises every clause -/
+
+/-- a readline that succeeds after four requests with shrinking timeouts, a
+    `read_until_timeout`, a `read(4)` that times out, a two-slice `send` with read-back whose
+    second echo needs the rest of the overall timeout, and an `expect` without timeout that
+    blocks for ever -/
+def demo : Case :=
+  { chunk := 4, slice := 2,
+    script := [⟨3, [97, 98]⟩, ⟨7, [99, 10]⟩, ⟨20, [100, 101, 102]⟩, ⟨26, [103]⟩],
+    accept := [],
+    ops := [.readline [10] (some 10), .rut (some 5), .read (some 4) (some 6),
+            .send [120, 121, 122] true (some 9) false, .expect [.lit [122]] none] }
+
+theorem demo_wf : ChanCase.WfCase demo :=
+  ⟨by decide, by decide, by decide, by decide⟩
+
+example : Spec.C06 demo (Chan.run demo) = true := case_spec demo demo_wf
+
+example : ((Chan.run demo).1.map (fun o => (o.res, o.t0, o.t1, o.reads.map fun r => (r.timeout, r.t0, r.t1)))
+    == [(.text ['a', 'b', 'c', '\n'], 0, 7, [(some 10, 0, 3), (some 7, 3, 3), (some 7, 3, 7), (some 3, 7, 7)]),
+       (.text [], 7, 12, [(some 5, 7, 12)]),
+       (.err .timeout, 12, 18, [(some 6, 12, 18)]),
+       (.unit, 18, 20, [(some 9, 18, 20), (some 7, 20, 20)]),
+       (.err .hang, 20, 26, [(none, 20, 26), (none, 26, 26)])]) = true := by decide
+
+/-- why the Spec (and the guard `q` of `Timed`) exempts slow sending: two one-byte pieces with a
+    5-tick sleep after each make a `send(timeout=3)` raise its `TimeoutError` at tick 10 -/
+def slowDemo : Case :=
+  { chunk := 4, slice := 2, script := [⟨0, [120, 121]⟩], accept := [],
+    ops := [.setSlow (some 5) 1, .send [120, 121] true (some 3) false] }
+
+example : ChanCase.WfCase slowDemo := ⟨by decide, by decide, by decide, by decide⟩
+
+example : ((Chan.run slowDemo).1.map (fun o => (o.res, o.t0, o.t1)) == [(.unit, 0, 0), (.err .timeout, 0, 10)]) = true := by
+  decide
+
 end C06
